@@ -4,6 +4,7 @@ package main
 
 import (
 	"fmt"
+	"os"
 	"go/token"
 	"go/types"
 	"sort"
@@ -226,12 +227,15 @@ func (e *Engine) atReturn(st *State, fr *Frame, res Val, x *ssa.Return) {
 	}
 	vc.results++
 	c := vc.c
+	if os.Getenv("GOVC_DEBUG") != "" {
+		fmt.Printf("  return %s trace=%v res=%v\n", shortFn(vc.fn), st.trace, res.L)
+	}
 	env := map[string]Val{}
 	for k, v := range st.env {
 		env[k] = v
 	}
 	bindResults(env, vc.fn, res)
-	ctx := &evalCtx{e: e, st: st, old: st.entry, env: env, pkg: vc.fn.Package().Pkg, fr: fr}
+	ctx := &evalCtx{e: e, st: st, old: st.entry, env: env, pkg: vc.fn.Package().Pkg}
 	pos := vc.fn.Pos()
 	if x != nil {
 		pos = x.Pos()
@@ -374,9 +378,11 @@ func (e *Engine) applyContractEnv(st *State, fr *Frame, c *Contract, env map[str
 	} else {
 		for _, cl := range assigns {
 			for _, ex := range cl.Exprs {
-				pi, T := e.evalAddr(pctx, ex)
-				if e.cur.c != nil && !e.cur.discover {
-					e.checkAssigns(st, pi, T, in)
+				if call, ok := ex.(*ECall); !ok || !isRegionCall(call) {
+					pi, T := e.evalAddr(pctx, ex)
+					if e.cur.c != nil && !e.cur.discover {
+						e.checkAssigns(st, pi, T, in)
+					}
 				}
 				e.havocLoc(st, pctx, ex)
 			}
@@ -467,6 +473,11 @@ func (e *Engine) havocLoc(st *State, pctx *evalCtx, ex Expr) {
 			e.havocRegion(st, et, s.sRef(), s.sOff(), s.sLen())
 			return
 		}
+		if id, ok := call.Fun.(*EIdent); ok && (id.Name == "wstream" || id.Name == "rstream") {
+			s := e.resolveAlias(st, streamRef(e.eval(pctx, call.Args[0])))
+			e.havocStream(st, s, id.Name == "wstream")
+			return
+		}
 		if id, ok := call.Fun.(*EIdent); ok && id.Name == "mapof" {
 			m := e.eval(pctx, call.Args[0])
 			root := mapRoot(m.T)
@@ -538,6 +549,9 @@ func (e *Engine) checkAssigns(st *State, pi *PtrInfo, T types.Type, in ssa.Instr
 	for _, cl := range cls {
 		for _, ex := range cl.Exprs {
 			if call, ok := ex.(*ECall); ok {
+				if id, ok := call.Fun.(*EIdent); ok && (id.Name == "wstream" || id.Name == "rstream") {
+					continue
+				}
 				if id, ok := call.Fun.(*EIdent); ok && id.Name == "elems" {
 					s := e.eval(pctx, call.Args[0])
 					et := s.T.Underlying().(*types.Slice).Elem()
@@ -708,4 +722,52 @@ func (e *Engine) evalPureInvoke(c *evalCtx, recv Val, m *types.Func, args []Val)
 		}
 	}
 	panic(fmt.Errorf("cannot evaluate interface method %s.%s in a contract", typeName(recv.T), m.Name()))
+}
+
+// havocStream forgets a ghost stream's cursor; for writers also the tokens at and above the old write cursor
+// (through fan-out tables).
+func (e *Engine) havocStream(st *State, s *Term, writer bool) {
+	if mw, ok := st.ghost["$mw/"+s.String()]; ok {
+		for _, sink := range mw.L {
+			e.havocStream(st, e.resolveAlias(st, sink), writer)
+		}
+		return
+	}
+	if tee, ok := st.ghost["$tee/"+s.String()]; ok {
+		e.havocStream(st, e.resolveAlias(st, tee.L[0]), false)
+		e.havocStream(st, e.resolveAlias(st, tee.L[1]), true)
+		return
+	}
+	if !writer {
+		nr := FreshVar("rpos", Ref64)
+		st.assume(Ule(rposOf(st, s), nr))
+		st.storeLeaf("tokpos|r", []*Term{s}, nr)
+		return
+	}
+	w0 := wposOf(st, s)
+	for _, c := range []struct {
+		key string
+		s   *Sort
+	}{{"tok|kind", BV(8)}, {"tok|m", BV(8)}, {"tok|n", Ref64}, {"tok|cid", Ref64}, {"tok|aux", Ref64}} {
+		old := st.cellArr(c.key, 2, c.s)
+		nw := FreshVar("Hs|"+c.key, old.S)
+		j := Bound("j", BV(128))
+		jr, ji := Extract(127, 64, j), Extract(63, 0, j)
+		inR := And(Eq(jr, s), Ule(w0, ji))
+		st.assume(Forall([]*Term{j}, Or(inR, Eq(Select(nw, j), Select(old, j)))))
+		st.mem[c.key] = nw
+	}
+	nwp := FreshVar("wpos", Ref64)
+	st.assume(Ule(w0, nwp))
+	st.storeLeaf("tokpos|w", []*Term{s}, nwp)
+}
+
+func isRegionCall(c *ECall) bool {
+	if id, ok := c.Fun.(*EIdent); ok {
+		switch id.Name {
+		case "wstream", "rstream", "elems", "mapof":
+			return true
+		}
+	}
+	return false
 }
